@@ -330,6 +330,9 @@ class Interp(Engine):
                 if "classmethod" in deco:
                     return FuncV(res[0], res[1], res[2], obj)
                 return FuncV(res[0], res[1], res[2], None)
+            co = self.reg.classobj_hook(self, obj, attr) if self.reg.classobj_hook else None
+            if co is not None:
+                return self.getattr_v(co, attr)
             ca = self.repo.class_attr(obj.rel, obj.name, attr)
             if ca:
                 fr = Frame(ca[0], obj.name, "<class>", {})
@@ -346,6 +349,8 @@ class Interp(Engine):
             return BoundExt(obj, attr)
         if isinstance(obj, tuple) and hasattr(obj, "_fields"):
             return getattr(obj, attr)
+        if isinstance(obj, dict) and attr in ("items", "values", "keys"):
+            return BoundExt(obj, attr)
         if obj is None:
             self.oblige("safe", z3.BoolVal(False), "None has no attribute %s" % attr, assume_after=False)
             raise PyRaise(ExcV(AttributeError, (attr,), {"reported": True}))
@@ -371,6 +376,10 @@ class Interp(Engine):
                 return h(self, obj, val)
             self.wr_field(obj, attr, val)
             return
+        if isinstance(obj, ClassV) and self.reg.classobj_hook:
+            co = self.reg.classobj_hook(self, obj, attr)
+            if co is not None:
+                return self.setattr_v(co, attr, val)
         raise Unsupported("attribute store on %r" % (obj,))
 
     # ================================================================= statements
@@ -1036,6 +1045,13 @@ class Interp(Engine):
         self.ghost = dict(self.ghost)
         line = self.cur_line
         try:
+            if self.reg.classobj_hook:
+                # a class passed as `cls` (classmethod) denotes its class object (mutable class attributes)
+                for k_, v_ in list(env.items()):
+                    if isinstance(v_, ClassV) and isinstance(c.params.get(k_), Ty) and c.params[k_].kind == "ref":
+                        co = self.reg.classobj_hook(self, v_, None)
+                        if co is not None:
+                            env[k_] = co
             if c.setup:
                 c.setup(self)
             slot = None
